@@ -522,9 +522,8 @@ class C10(Check):
         "library writer: 'written' = the SummaryState content observed with SummaryState::get right before "
         "add_timestep (rounded to float32), not a re-derivation of the summary evaluation (that is C09)",
         "restart runs: the base part of a series is asserted only for vectors present in both runs",
-        "ExtESmry restart chaining needs ESMRY files with a RESTART record: out::Summary's own ESMRY output "
-        "(unformatted only) or the Python encoder; make_esmry_file never records the restart link (documented: "
-        "'only works for single smspec files'), so converted files are checked as single runs",
+        "ExtESmry restart chaining is asserted on ESMRY files written by out::Summary (unformatted runs), by the "
+        "Python encoder, and on files converted with make_esmry_file (known finding: the link is dropped)",
         "no NaN/Inf values; report-step numbers < 10000 (Snnnn)"]
     EXAMPLES = {"quick": 40, "thorough": 700}
     MIN_EVALS = {"quick": 400, "thorough": 3000}
@@ -723,7 +722,9 @@ class C10(Check):
         return model
 
     def grid_of(self, case, run):
-        if run["n"] <= 8 and run["style"] != "well" and case["writer"] == "py":
+        # one grid per case: a continuing run has the grid of its base run
+        r = case["run"]
+        if not case["base"] and r["n"] <= 8 and r["style"] != "well" and case["writer"] == "py":
             return SMALL_GRIDS[case["grid"] % len(SMALL_GRIDS)]
         return GRIDS[case["grid"] % len(GRIDS)]
 
@@ -795,8 +796,6 @@ class C10(Check):
         if override is not None and case["writer"] == "py":
             run = dict(run)
             run["n"] = len(override)
-        if base and case["writer"] == "lib" and override is None and self.grid_of(case, run) != bm["grid"]:
-            raise Discard()
         om = self.build_run(case, ctx, run, "RUN2" if base else "CASE1", rundir, 1 if base else 0, restart, t0, first_rs,
                             override)
 
@@ -1189,19 +1188,27 @@ class C10(Check):
             if v["rule"].endswith("series differs") or v["rule"].endswith("get_at_rstep"):
                 v["key"] = key
             return v
-        # ExtESmry chaining: only ESMRY files carrying the RESTART record (written by the writer) can chain
-        if bm["has_esmry"] and om["has_esmry"]:
-            who = "ExtESmry(loadBaseRunData)"
-            ctx.label("path:chained-ExtESmry")
-            epath = os.path.join(om["dir"], om["base"] + ".ESMRY")
-            exp2 = dict(exp)
-            exp2["allkeys"] = set(om["keys"])
-            rd, v = lib_read(who, None, cmd="esmry_read", path=epath, base_run=True,
-                             load="all" if case["subset"] % 2 else "list", list=sub, dump=common, rstep_keys=rkeys)
-            if v:
-                v["key"] = None
-                return v
-            v = self.verify_reply(who, case, rd, common, exp2, fmt, rkeys, startdat3=sd3)
-            if v:
-                return v
+        # ExtESmry chaining.  ESMRY files written by the writer carry the RESTART/RSTNUM records; files converted with
+        # make_esmry_file are expected to carry them too (the function has the code to write them)
+        who = "ExtESmry(loadBaseRunData)" if (bm["has_esmry"] and om["has_esmry"]) else \
+            "make_esmry_file + ExtESmry(loadBaseRunData)"
+        ctx.label("path:chained-ExtESmry" if (bm["has_esmry"] and om["has_esmry"]) else "path:chained-ExtESmry-converted")
+        epath = os.path.join(om["dir"], om["base"] + ".ESMRY")
+        exp2 = dict(exp)
+        exp2["allkeys"] = set(om["keys"])
+        rd, v = lib_read(who, None, cmd="esmry_read", path=epath, base_run=True,
+                         load="all" if case["subset"] % 2 else "list", list=sub, dump=common, rstep_keys=rkeys)
+        if v:
+            return v
+        if not om["has_esmry"] and rd["ntstep"] == len(om["plan"]):
+            # genuine: reported at the end of the case so that everything else is still checked
+            self.deferred.append({"rule": "make_esmry_file drops the link to the base run: the converted ESMRY file of a "
+                                          "continuing run has no RESTART/RSTNUM record, ExtESmry(loadBaseRunData) returns "
+                                          "the run's own ministeps only",
+                                  "detail": {"ntstep": rd["ntstep"], "want": M, "restart": [om["restart_root"], cut]},
+                                  "key": "make-esmry-drops-restart-link"})
+            return None
+        v = self.verify_reply(who, case, rd, common, exp2, fmt, rkeys, startdat3=sd3)
+        if v:
+            return v
         return None
